@@ -422,23 +422,26 @@ type nbReq struct {
 }
 
 type nbClient struct {
-	idx       int
-	host      string
-	reqs      []*nbReq
-	got       [][]byte // datagrams / frames received, raw
-	tcp       bool
-	abortAt   int // tcp: abort after this many bytes written (-1 none)
-	gaps      []int
-	sentAll   bool
-	deadline  bool
-	linger    bool // tcp: keep the connection open, idle, until the shutdown has been judged
-	silent    bool // tcp: connect and never send a byte
-	paced     bool // tcp: one request every 12 s, waiting for each response
-	noread    bool // tcp: sends everything, never reads, stays connected
-	ioDone    *rt.Flag
-	release   *rt.Flag
-	trigger   *rt.Flag // set when this client has sent its triggerAt-th request (progress-triggered Stop)
-	triggerAt int
+	idx            int
+	host           string
+	reqs           []*nbReq
+	got            [][]byte // datagrams / frames received, raw
+	tcp            bool
+	abortAt        int // tcp: abort after this many bytes written (-1 none)
+	gaps           []int
+	sentAll        bool
+	deadline       bool
+	linger         bool // tcp: keep the connection open, idle, until the shutdown has been judged
+	silent         bool // tcp: connect and never send a byte
+	paced          bool // tcp: one request every 12 s, waiting for each response
+	noread         bool // tcp: sends everything, never reads, stays connected
+	stall          bool // tcp: one byte, 31 s of silence, then the rest
+	silentOpen     bool
+	closedByServer bool
+	ioDone         *rt.Flag
+	release        *rt.Flag
+	trigger        *rt.Flag // set when this client has sent its triggerAt-th request (progress-triggered Stop)
+	triggerAt      int
 }
 
 func nameOf(i int) string { return fmt.Sprintf("HOST%03dQ", i) }
